@@ -7,6 +7,7 @@ import (
 	"strings"
 
 	"verifharness/c01"
+	"verifharness/c02"
 	"verifharness/c04"
 	"verifharness/c06"
 	"verifharness/nd"
@@ -18,6 +19,7 @@ type entry struct {
 }
 
 var registry = map[string]entry{
+	"c02.RunPredicates": {c02.Setup, c02.RunPredicates},
 	"c01.RunSteps":    {c01.Setup, c01.RunSteps},
 	"c04.RunNumber":   {c04.Setup, c04.RunNumber},
 	"c04.RunString":   {c04.Setup, c04.RunString},
